@@ -41,3 +41,17 @@ pub fn describe(id: &str) -> String {
         None => format!("[{id}]"),
     }
 }
+
+/// Classifier shared by C02 / C09 / C10 for the finding
+/// `C09-yaml-trial-depends-on-read-ahead`: libyaml validates every character of
+/// each block of input it is handed, so a character YAML forbids that lies
+/// BEYOND the point where the YAML detection trial would stop (the start of the
+/// second document, after a collection-rooted first document) makes the trial
+/// fail when the bytes arrive in one piece and succeed when they arrive in small
+/// pieces. True iff `input` has exactly that shape.
+pub fn yaml_trial_read_ahead_shape(input: &[u8]) -> bool {
+    match crate::read::yaml::first_forbidden_offset(input) {
+        Some(p) if p > 0 => crate::read::yaml::collection_then_second_document(&input[..p]),
+        _ => false,
+    }
+}
